@@ -167,7 +167,11 @@ func c04Harness(cfg *Cfg) func(x *mc.Exec) {
 		devCalls := 0
 		switch mode {
 		case 0: // bufio x chunk x eof
-			spec.Bufio = bufioSizes[x.Choose(len(bufioSizes), "bufio")]
+			bs := bufioSizes
+			if !cfg.Thorough && ci > 0 {
+				bs = []int{16, 64, 328, 4096, 65536} // quick tier: cut streams through five of the thirteen bufio sizes
+			}
+			spec.Bufio = bs[x.Choose(len(bs), "bufio")]
 			spec.Chunk = chunkSizes[x.Choose(len(chunkSizes), "chunk")]
 			spec.EOFWithData = x.Choose(2, "eof-with-data") == 1
 			if cs.long && spec.Chunk != 0 && spec.Chunk < 8 && spec.Bufio > 64 {
